@@ -120,6 +120,7 @@ type seqCase struct {
 	maintMode    bool  // closed-loop policy replay: restricted op mix, audits, maintenance markers
 	maintRuns    []int64
 	maintAdj     []int64 // per maintenance run: the hill climber's amount (value hook 11 in policy.climb)
+	maintMax     [][3]uint64 // per maintenance run: the policy's maxima when the run began
 	climber      bool    // closed-loop case with a maximum large enough for the hill climber to move entries
 	phaseKeys    [2]int
 	staleBase    int           // events before this index belong to the maintenance a stale write raced with
@@ -360,6 +361,11 @@ func (s *seqCase) setup(caseNo int) {
 		if id == 1 && !s.inTarget {
 			s.maintRuns = append(s.maintRuns, s.now())
 			s.maintAdj = append(s.maintAdj, 0)
+			var mx [3]uint64
+			if s.c != nil {
+				mx[0], mx[1], mx[2] = otter.VerifPolicyMaxima(s.c)
+			}
+			s.maintMax = append(s.maintMax, mx)
 		}
 	}
 	otter.VerifValueHook = func(id int, v int64) {
@@ -1452,12 +1458,19 @@ func (s *seqCase) persistCheck() {
 // start of cache.maintenance), preceded by the policy maxima when SetMaximum changed them.
 func (s *seqCase) flushMaint(name string) {
 	if (strings.HasPrefix(name, "SetMaximum") || name == "newCache") && s.bound != 0 {
+		// the maxima SetMaximum computed: read when its own maintenance run began — afterwards that run's
+		// climb may already have moved them
 		a := otter.VerifAudit(s.c)
-		s.t.line("X %d %d %d", a.Maximum, a.WindowMaximum, a.ProtectedMaximum)
+		mx := [3]uint64{a.Maximum, a.WindowMaximum, a.ProtectedMaximum}
+		if len(s.maintMax) > 0 && s.maintMax[0][0] != 0 {
+			mx = s.maintMax[0]
+		}
+		s.t.line("X %d %d %d", mx[0], mx[1], mx[2])
 	}
 	if !s.maintMode {
 		s.maintRuns = s.maintRuns[:0]
 		s.maintAdj = s.maintAdj[:0]
+		s.maintMax = s.maintMax[:0]
 		return
 	}
 	for i, now := range s.maintRuns {
@@ -1466,6 +1479,7 @@ func (s *seqCase) flushMaint(name string) {
 	}
 	s.maintRuns = s.maintRuns[:0]
 	s.maintAdj = s.maintAdj[:0]
+	s.maintMax = s.maintMax[:0]
 }
 
 func vnList(tag string, ns []otter.VerifNode[int, int]) string {
